@@ -1010,11 +1010,27 @@ class Merge3Merger:
                 copied,
             ) in enumerate(entries):
                 if copied:
-                    # Treat copies as simple adds for now
-                    paths3 = (None, paths3[1], None)
-                    parents3 = (None, parents3[1], None)
-                    names3 = (None, names3[1], None)
-                    executable3 = (None, executable3[1], None)
+                    # Treat copies as simple adds for now. The BASE and THIS
+                    # slots filled in by the entry generator describe the
+                    # copy *source*; for an add what matters is the entry
+                    # THIS may already have at the new path, which has to
+                    # be merged with OTHER's rather than overwritten.
+                    this_path = _mod_tree.find_previous_path(
+                        self.other_tree, self.this_tree, paths3[1]
+                    )
+                    paths3 = (None, paths3[1], this_path)
+                    if this_path is None:
+                        parents3 = (None, parents3[1], None)
+                        names3 = (None, names3[1], None)
+                        executable3 = (None, executable3[1], None)
+                    else:
+                        parents3 = (None, parents3[1], _path_dirname(this_path))
+                        names3 = (None, names3[1], _path_basename(this_path))
+                        executable3 = (
+                            None,
+                            executable3[1],
+                            _safe_executable(self.this_tree, this_path),
+                        )
                     changed = True
                     copied = False
                 # Resolve a trans_id for this entry. Inventory-backed
